@@ -72,19 +72,22 @@ func BVSort(w int) *Sort {
 
 func (s *Sort) String() string { return s.Name }
 
+var symRepl = strings.NewReplacer(":", "!", ",", "&", "[", "%", "]", "%", " ", "_", "(", "<", ")", ">", "{", "$", "}", "$", "|", "!", "\\", "/", "#", "!", "@", "~", ";", "!")
+
+// quoteSym renders a name as an SMT-LIB simple symbol (cvc5 1.0 mis-parses
+// quoted symbols inside (_ is ...)).
 func quoteSym(s string) string {
-	simple := true
+	s = symRepl.Replace(s)
+	simple := s != ""
 	for _, c := range s {
-		if !(c >= 'a' && c <= 'z' || c >= 'A' && c <= 'Z' || c >= '0' && c <= '9' || c == '_' || c == '.' || c == '!' || c == '$' || c == '-') {
+		if !(c >= 'a' && c <= 'z' || c >= 'A' && c <= 'Z' || c >= '0' && c <= '9' || strings.ContainsRune("~!$%^&*_-+=<>.?/", c)) {
 			simple = false
 			break
 		}
 	}
-	if simple && s != "" && !(s[0] >= '0' && s[0] <= '9') {
+	if simple && !(s[0] >= '0' && s[0] <= '9') {
 		return s
 	}
-	s = strings.ReplaceAll(s, "|", "!")
-	s = strings.ReplaceAll(s, "\\", "/")
 	return "|" + s + "|"
 }
 
